@@ -186,7 +186,12 @@ def check_routes(run, bad):
         pairs.append("X%d-Y%d : as.buck4 %r %r %r %r %r %r" % (i, i, A, rho, C, rd, rm, ra))
         pairs.append("X%d-Z%d : spline(as.buck %r %r 0 >%r buck4_spline %r >%r as.buck 0 1 %r)" % (i, i, A, rho, rd, rm, ra, C))
         pairs.append("X%d-W%d : spline(>0 as.zbl 14 8 >=%r exp_spline >=%r as.buck %r %r %r)" % (i, i, rd, ra, A, rho, C))
-    text = "[Tabulation]\ntarget : LAMMPS\nnr : 5\ncutoff : 4.0\n\n[Pair]\n" + "\n".join(pairs) + "\n"
+        # the same two splines with the end potentials spelled as custom formulas (no analytic derivatives: the knots' slopes
+        # and curvatures come from the numerical fall-back, taken on the end potential itself)
+        pairs.append("X%d-V%d : spline(>0 as.zbl 14 8 >=%r exp_spline >=%r mybuck %r %r %r)" % (i, i, rd, ra, A, rho, C))
+        pairs.append("X%d-U%d : spline(mybm %r %r >%r buck4_spline %r >%r mybuck 0 1 %r)" % (i, i, A, rho, rd, rm, ra, C))
+    forms = "[Potential-Form]\nmybuck(r, A, rho, C) = A*exp(-r/rho) - C/r^6\nmybm(r, A, rho) = A*exp(-r/rho)\n\n"
+    text = "[Tabulation]\ntarget : LAMMPS\nnr : 5\ncutoff : 4.0\n\n" + forms + "[Pair]\n" + "\n".join(pairs) + "\n"
     tab = Configuration().read(io.StringIO(text))
     pots = {(p.speciesA, p.speciesB[0]): p for p in tab.potentials}
     for i, (A, rho, C, rd, rm, ra) in enumerate(lat):
@@ -207,6 +212,17 @@ def check_routes(run, bad):
                 dv = [getattr(f, name)(x) for f in (f1, f2, f3, f4)]
                 if not all(abs(v - dv[0]) <= 1e-9 * (1 + abs(dv[0])) for v in dv):
                     bad.append(("routes", "buck4 knots (%s, %s, %s) at r=%s: .%s differs between the routes: %s" % (rd, rm, ra, x, name, dv), dict(params=[A, rho, C, rd, rm, ra])))
+            g3 = pots[("X%d" % i, "V")].potentialFunction
+            f5 = pots[("X%d" % i, "U")].potentialFunction
+            for what, a, b in (("exp spline zbl -> buck", g2, g3), ("buck4 spline", f4, f5)):
+                try:
+                    vb = b(x)
+                except Exception as e:
+                    vb = "%s: %s" % (type(e).__name__, e)
+                if isinstance(vb, str) or abs(a(x) - vb) > 2e-3 * (1 + abs(a(x))):
+                    bad.append(("routes", "%s, knots (%s, %s, %s) at r=%s: end potentials as built-in forms give %r, the same end potentials spelled as formulas give %r" % (
+                        what, rd, rm, ra, x, a(x), vb), dict(params=[A, rho, C, rd, rm, ra])))
+                    break
             if abs(g1(x) - g2(x)) > 1e-10 * (1 + abs(g1(x))):
                 bad.append(("routes", "exp spline zbl -> buck knots (%s, %s) at r=%s: SplinePotential %r, spline(... exp_spline ...) %r" % (rd, ra, x, g1(x), g2(x)), dict(params=[A, rho, C, rd, ra])))
                 break
